@@ -44,6 +44,11 @@ EscCh(c) == CASE c = "&" -> <<"&", "a", "m", "p", ";">> [] c = "<" -> <<"&", "l"
               [] c = "'" -> <<"&", "#", "3", "9", ";">> [] OTHER -> <<c>>
 RECURSIVE Escape(_)
 Escape(s) == IF s = <<>> THEN <<>> ELSE EscCh(Head(s)) \o Escape(Tail(s))
+\* a configured escape function (Tera::set_escape_fn) replaces the default one at every sink
+EscChB(c) == CASE c = "<" -> <<"[", "l", "t", "]">> [] c = "&" -> <<"[", "a", "m", "p", "]">> [] OTHER -> <<c>>
+RECURSIVE EscapeB(_)
+EscapeB(s) == IF s = <<>> THEN <<>> ELSE EscChB(Head(s)) \o EscapeB(Tail(s))
+EscapeBy(fn, s) == IF fn = "brackets" THEN EscapeB(s) ELSE Escape(s)
 Lower == <<"a", "b", "c", "d", "e", "f", "g", "h", "i", "j", "k", "l", "m", "n", "o", "p", "q", "r", "s", "t", "u", "v", "w", "x", "y", "z">>
 UpperL == <<"A", "B", "C", "D", "E", "F", "G", "H", "I", "J", "K", "L", "M", "N", "O", "P", "Q", "R", "S", "T", "U", "V", "W", "X", "Y", "Z">>
 UpCh(c) == IF \E i \in 1..26 : Lower[i] = c THEN UpperL[CHOOSE i \in 1..26 : Lower[i] = c] ELSE c
@@ -63,7 +68,7 @@ ENone == [e |-> "nil"]
 \* ------------------------------------------------------------------ tokens
 \* k kind; n, m names (loop variables, assigned name, filter, template); e expression
 T(k, n, e, m) == [k |-> k, n |-> n, e |-> e, m |-> m]
-Opens == {"if", "for", "forkv", "setblock", "filter"}
+Opens == {"if", "for", "forkv", "setblock", "setgblock", "filter"}
 
 \* ------------------------------------------------------------------ state
 \* out: written text; loops: <<[vars, i, len]>> innermost last; sets: name -> value; caps: capture buffers;
@@ -76,9 +81,14 @@ RECURSIVE InLoops(_, _, _)
 InLoops(loops, i, n) == IF i = 0 THEN Undef ELSE IF Has(loops[i].vars, n) THEN loops[i].vars[n] ELSE InLoops(loops, i - 1, n)
 FoundInLoops(loops, n) == \E i \in 1..Len(loops) : Has(loops[i].vars, n)
 RECURSIVE InUps(_, _, _)
+\* (named deviation of the engine: a name an includer assigned an UNDEFINED value to — `set y = nope` — does not shadow
+\* for the included template; the search goes on.  The statements do not cover assigning undefined.)
 InUps(up, i, n) == IF i > Len(up) THEN [f |-> FALSE, v |-> Undef]
-                   ELSE IF FoundInLoops(up[i].loops, n) THEN [f |-> TRUE, v |-> InLoops(up[i].loops, Len(up[i].loops), n)]
-                   ELSE IF Has(up[i].sets, n) THEN [f |-> TRUE, v |-> up[i].sets[n]]
+                   ELSE IF FoundInLoops(up[i].loops, n) /\ InLoops(up[i].loops, Len(up[i].loops), n).k # "undef"
+                     THEN [f |-> TRUE, v |-> InLoops(up[i].loops, Len(up[i].loops), n)]
+                   ELSE IF FoundInLoops(up[i].loops, n) THEN [f |-> FALSE, v |-> Undef]
+                   ELSE IF Has(up[i].sets, n) /\ up[i].sets[n].k # "undef" THEN [f |-> TRUE, v |-> up[i].sets[n]]
+                   ELSE IF Has(up[i].sets, n) THEN [f |-> FALSE, v |-> Undef]
                    ELSE InUps(up, i + 1, n)
 \* innermost loop first, then assignments, then the includers' scopes, then the context, then the global context
 Lookup(st, env, n) ==
@@ -134,7 +144,7 @@ Sig(st, s) == [st EXCEPT !.sig = s]
 \* the sink: undefined cannot be printed; everything not Safe goes through the escaper when autoescaping is on
 Write(st, env, v) == IF v.k = "undef" THEN Sig(st, "err")
                      ELSE IF ~Showable(v) THEN Sig(st, "unspec")
-                     ELSE EmitTo(st, IF env.ae /\ ~IsSafe(v) THEN Escape(Show(v)) ELSE Show(v))
+                     ELSE EmitTo(st, IF env.ae /\ ~IsSafe(v) THEN EscapeBy(env.esc, Show(v)) ELSE Show(v))
 \* `set` lands in the innermost loop of this template if there is one, else in the render-wide assignments
 Store(st, n, v, global) ==
   IF st.loops # <<>> /\ ~global THEN [st EXCEPT !.loops[Len(st.loops)].vars = (n :> v) @@ @]
@@ -184,12 +194,12 @@ Exec(p, i, j, st, env) ==
                 IF xs = <<>> THEN (IF m.seps = <<>> THEN Exec(p, m.end + 1, j, st, env)
                                    ELSE Exec(p, m.end + 1, j, Exec(p, m.seps[1] + 1, m.end, st, env), env))
                 ELSE Exec(p, m.end + 1, j, Iter(p, i + 1, bodyEnd, t, xs, 1, [st EXCEPT !.loops = Append(@, [vars |-> EmptyF, i |-> 0, len |-> Len(xs)])], env), env)
-      [] t.k = "setblock" -> LET m == ScanB(p, i + 1, 0, <<>>)
+      [] t.k \in {"setblock", "setgblock"} -> LET m == ScanB(p, i + 1, 0, <<>>)
                                  s1 == Exec(p, i + 1, m.end, [st EXCEPT !.caps = Append(@, <<>>)], env) IN
                              IF s1.sig # "" THEN s1
                              ELSE LET txt == s1.caps[Len(s1.caps)]
                                       s2 == [s1 EXCEPT !.caps = SubSeq(@, 1, Len(@) - 1)] IN
-                                  Exec(p, m.end + 1, j, Store(s2, t.n, ApplyCapFilter(t.m, txt), FALSE), env)
+                                  Exec(p, m.end + 1, j, Store(s2, t.n, ApplyCapFilter(t.m, txt), t.k = "setgblock"), env)
       [] t.k = "filter" -> LET m == ScanB(p, i + 1, 0, <<>>)
                                s1 == Exec(p, i + 1, m.end, [st EXCEPT !.caps = Append(@, <<>>)], env) IN
                            IF s1.sig # "" THEN s1
@@ -224,7 +234,7 @@ Iter(p, i, j, t, xs, k, st, env) ==
        ELSE IF st2.sig = "break" THEN [st2 EXCEPT !.sig = "", !.loops = SubSeq(@, 1, top - 1)]
        ELSE Iter(p, i, j, t, xs, k + 1, [st2 EXCEPT !.sig = ""], env)
 
-\* env: [ctx, gctx, ae, lib, texts]
+\* env: [ctx, gctx, ae, esc, lib, texts]
 Run(prog, env) ==
   LET r == Exec(prog, 1, Len(prog) + 1, St0(<<>>), env) IN
   [r |-> IF r.sig = "" THEN "ok" ELSE IF r.sig = "unspec" THEN "unspec" ELSE "err", out |-> IF r.sig = "" THEN r.out ELSE <<>>]
